@@ -18,10 +18,51 @@ def tokens_of(text):
     return set(re.findall(r"[A-Za-z_]\w*", text))
 
 
+@st.composite
+def class_ref_program(draw):
+    """User classes (some with names without a lower-case letter) that are named as bare tokens in many positions: default
+    values (also of the class being defined or of one defined further down), is_a?, case/in, assignments, arrays."""
+    names = draw(st.lists(st.sampled_from(["A", "K9", "IO", "Node", "Leafy", "Qx", "B"]), min_size=1, max_size=3, unique=True))
+    lines = []
+    for i, n in enumerate(names):
+        other = names[draw(st.integers(0, len(names) - 1))]
+        lines += ["class %s" % n, "  def initialize(v = 0)", "    @v = v", "  end"]
+        for k in range(draw(st.integers(1, 3))):
+            form = draw(st.sampled_from(["default-new", "default-class", "kw-default", "is_a", "plain", "array"]))
+            m = "%s_m%d" % (n.lower(), k)
+            if form == "default-new":
+                lines += ["  def %s(other = %s.new)" % (m, other), "    other", "  end"]
+            elif form == "default-class":
+                lines += ["  def %s(kind = %s)" % (m, other), "    kind.new", "  end"]
+            elif form == "kw-default":
+                lines += ["  def %s(k: %s.new(1))" % (m, other), "    k", "  end"]
+            elif form == "is_a":
+                lines += ["  def %s(x)" % m, "    if x.is_a?(%s)" % other, "      1", "    else", "      \"s\"", "    end", "  end"]
+            elif form == "array":
+                lines += ["  def %s" % m, "    [%s.new, %s]" % (other, other), "  end"]
+            else:
+                lines += ["  def %s" % m, "    @v", "  end"]
+            lines.append("__CALL__ %s %s %s" % (n, m, form))
+        lines.append("end")
+    out, calls = [], []
+    for l in lines:
+        if l.startswith("__CALL__"):
+            _, n, m, form = l.split()
+            calls.append((n, m, form))
+        else:
+            out.append(l)
+    for n in names:
+        out.append("o_%s = %s.new" % (n.lower(), n))
+    for n, m, form in calls:
+        arg = "(1)" if form == "is_a" else ""
+        out.append("dbtp o_%s.%s%s" % (n.lower(), m, arg))
+    return "\n".join(out) + "\n"
+
+
 class Check(Prop):
     ID = "C20"
     RULE = ("cases = (program, 1-3 extra configuration files appended to the shipped configuration, loaded first or last). Programs: "
-            "golden corpus programs and grammar-generated programs (user classes, methods, blocks, conditionals). Extra classes have fresh "
+            "golden corpus programs, grammar-generated programs (user classes, methods, blocks, conditionals) and programs that name their own classes (some without a lower-case letter: A, K9, IO) as bare tokens in default values, is_a?, arrays. Extra classes have fresh "
             "names the program never mentions, or - the stated special case - the short name of a class the program itself defines but "
             "in a different frame (Zframe::Name, Builtin::Zext::Name, ActiveRecord::Name); they declare instance/class methods (also with "
             "names the program uses, e.g. new/size/each) and optional extends. Oracle: identical `ti -i` output (plain sampled) with and "
@@ -43,8 +84,8 @@ class Check(Prop):
         progs = self.progs
 
         @st.composite
-        def extra(draw, user_classes):
-            collide = bool(user_classes) and draw(st.integers(0, 2)) == 0
+        def extra(draw, user_classes, force_collide=False):
+            collide = bool(user_classes) and draw(st.integers(0, 2 if not force_collide else 0)) == 0
             if collide:
                 name = user_classes[draw(st.integers(0, len(user_classes) - 1))]
                 frame = draw(st.sampled_from([f for f in FRAMES if f != "Builtin"]))
@@ -64,13 +105,16 @@ class Check(Prop):
 
         @st.composite
         def case(draw):
-            if draw(st.integers(0, 2)) == 0:
+            k = draw(st.integers(0, 3))
+            if k == 3:
+                src, origin = draw(class_ref_program()), "class-refs"
+            elif k == 0:
                 p = progs[draw(st.integers(0, len(progs) - 1))]
                 src, origin = p.text, "corpus:" + p.name
             else:
                 src, origin = rb.render(draw(rb.program(max_stmts=9))["tree"]), "generated"
             user_classes = sorted(set(re.findall(r"(?m)^\s*class\s+([A-Z]\w*)", src)))
-            extras = [draw(extra(user_classes)) for _ in range(draw(st.integers(1, 3)))]
+            extras = [draw(extra(user_classes, force_collide=(origin == "class-refs" and j == 0))) for j in range(draw(st.integers(1, 3)))]
             return {"src": src, "extras": extras, "origin": origin}
         return case()
 
